@@ -395,6 +395,9 @@ func report(cfg *PropCfg, tier string, seed int64, results []*HarnessResult, hcf
 	}
 	for _, ph := range cfg.Harnesses {
 		for _, tc := range ph.Tiers {
+			if tc.Params["rotating_peer_order"] == 1 {
+				as = append(as, "recovery harnesses: the random order in which peers are tried (rand.Perm) is a fair sequence: the j-th draw is the identity rotated by j")
+			}
 			if tc.Params["fixed_peer_order"] == 1 {
 				as = append(as, "scenario harnesses: the random order in which peers are tried (rand.Perm) is fixed to the identity")
 			}
